@@ -247,10 +247,26 @@ bool File::copy(const String& src, const String& destination, bool failIfExists)
       return false;
     if(lseek(fd, 0, SEEK_SET) < 0)
       return false;
-    int dest = ::open(destination, failIfExists ? (O_CREAT | O_EXCL | O_CLOEXEC | O_TRUNC | O_WRONLY) : (O_CREAT | O_CLOEXEC | O_TRUNC | O_WRONLY), S_IRUSR | S_IWUSR | S_IRGRP | S_IROTH);
+    // the destination is truncated only after it is known not to be the source itself
+    int dest = ::open(destination, failIfExists ? (O_CREAT | O_EXCL | O_CLOEXEC | O_WRONLY) : (O_CREAT | O_CLOEXEC | O_WRONLY), S_IRUSR | S_IWUSR | S_IRGRP | S_IROTH);
     if(dest == -1)
     {
       ::close(fd);
+      return false;
+    }
+    struct stat destStat;
+    int destError = 0;
+    if(fstat(dest, &destStat) != 0)
+      destError = errno;
+    else if(destStat.st_dev == srcStat.st_dev && destStat.st_ino == srcStat.st_ino)
+      destError = EINVAL; // source and destination are the same file
+    else if(ftruncate(dest, 0) != 0)
+      destError = errno;
+    if(destError)
+    {
+      ::close(fd);
+      ::close(dest);
+      errno = destError;
       return false;
     }
     if(sendfile(dest, fd, 0, size) != size)
